@@ -162,6 +162,13 @@ def c12():
         seq = [rnd.choice([1, 2, 3]) for _ in range(rnd.randint(5, 60))]
         add([[["a", "x"]]], [{"pid": 1, "kind": "publish", "batch": [["a", "y"]]}, {"pid": 2, "kind": "publish", "batch": [["b", "x"]]},
                               {"pid": 3, "kind": "publish", "batch": [["a", "y"], ["b", "y"]]}], seq + TAIL, ["none", "default"][k % 2])
+    # (iv) truly parallel runs on a multi-thread runtime (gate open): 2-4 publishers racing
+    for k in range(120 if chk.tier == "quick" else 2000):
+        npub = 2 + k % 3
+        batches = [[["a", "y"]], [["b", "x"]], [["a", "y"], ["b", "y"]], [["b", "y"]]][:npub]
+        add([[["a", "x"]]], [{"pid": i + 1, "kind": "publish", "batch": bt} for i, bt in enumerate(batches)], [], ["none", "default"][k % 2])
+        bs[-1]["mt"] = True
+        bs[-1]["par"] = "s2"
     traces = run_conc_harness(chk, bs)
     results = validate_traces("TraceDirectory", "TraceDirectory.cfg", traces, chk.wd)
     chk.handle_validation(results)
@@ -187,7 +194,7 @@ def c12():
         "publishers at storage-operation granularity on AkdConcurrent, and refutes each pinned switch (epoch read before the flag, flag released before "
         "the database write). Real runs: publishes on clones of one Directory as tasks whose every storage operation is granted by the harness's gate: "
         "(i) the complete interleavings exported by TLC (as operation grants, stretched x1..x3), (ii) all two-preemption schedules 'A i ops, B j ops, A to "
-        "end, B to end' and mirrored, (iii) seeded random schedules of three publishers; cached and uncached. The calls are serialised by returned epoch "
+        "end, B to end' and mirrored, (iii) seeded random schedules of three publishers, (iv) 2-4 publishers racing on a 4-thread runtime with the gate open; cached and uncached. The calls are serialised by returned epoch "
         "and TLC validates them against AkdDirectory: effective calls take consecutive epochs, failed calls have no effect, the final leaves and the "
         "full sweep equal the serial application, no transaction is left open. Non-trivial = distinct (schedule, batches, configuration, cache) runs with "
         ">= 3 gated operations.")
